@@ -163,7 +163,8 @@ def check_one(app, qs, header, res, case):
             res.violation('html|input-element-count', 'req', case, {'qs': qs, 'count': len(p.value)})
         elif plain and (p.value[0] or '') != want:
             res.violation('html|input-value-differs', 'req', case, {'qs': qs, 'number': want, 'value': p.value[0]})
-        low = text
+        # the one legitimate place where a quote is followed by the submitted text is the value attribute itself
+        low = text.replace('value="' + SENT, 'value=" ' + SENT)
         for ctx, name in (('<' + SENT, 'tag'), ('"' + SENT, 'dquote'), ("'" + SENT, 'squote')):
             if ctx in low:
                 res.violation('html|raw-sentinel:%s' % name, 'req', case, {'qs': qs, 'number': number, 'around': low[max(0, low.find(ctx) - 40):low.find(ctx) + 20]})
